@@ -209,6 +209,8 @@ def run(sh):
                     have = "?"
                 if _set(want) == _set(have):
                     sh.count("extend_agrees_with_rule_textually")
+                elif len(want) + len(have) > 3000:
+                    sh.inconc("extend-result-too-large-for-dom-oracle")
                 else:
                     # different redundancy trimming is fine: compare the *meaning* (same elements matched in every DOM)
                     try:
